@@ -4,6 +4,7 @@ import (
 	"fmt"
 	"go/constant"
 	"go/types"
+	"sort"
 	"strings"
 
 	"golang.org/x/tools/go/ssa"
@@ -18,6 +19,7 @@ type SpecEnv struct {
 	before map[string]TV
 	bound  map[string]TV
 	fn     *ssa.Function
+	witness bool // goal position: offer program variables as witnesses of integer existentials
 }
 
 var tInt = types.Typ[types.Int]
@@ -180,7 +182,7 @@ func (v *VC) ev(e SExpr, env *SpecEnv) TV {
 		if srt, ok := v.P.db.Ghosts[x.Name]; ok {
 			key := "ghost:" + x.Name
 			n := v.heapGet(env.heap, key, "RAW:"+srt)
-			_, typ := specSort(strings.ToLower(srt))
+			var typ types.Type
 			if srt == "Bool" {
 				typ = tBool
 			} else if srt == "Int" {
@@ -318,7 +320,32 @@ func (v *VC) ev(e SExpr, env *SpecEnv) TV {
 		if x.Forall {
 			q = "forall"
 		}
-		return TV{T: fmt.Sprintf("(%s (%s) %s)", q, strings.Join(decl, " "), body.T), Typ: tBool}
+		res := fmt.Sprintf("(%s (%s) %s)", q, strings.Join(decl, " "), body.T)
+		if !x.Forall && len(x.Vars) == 1 && x.Types[0] == "int" && env.witness {
+			// equivalent formulation that offers the program's own integer variables as witnesses
+			var names []string
+			for n, tv := range env.vars {
+				if tv.Typ != nil && v.sortOf(tv.Typ) == "Int" && !strings.HasPrefix(n, "arg") && !strings.HasPrefix(n, "result") {
+					names = append(names, n)
+				}
+			}
+			sort.Strings(names)
+			if len(names) <= 8 {
+				alts := []string{res}
+				for _, n := range names {
+					we := *env
+					we.witness = false
+					we.bound = map[string]TV{}
+					for k, b := range env.bound {
+						we.bound[k] = b
+					}
+					we.bound[x.Vars[0]] = env.vars[n]
+					alts = append(alts, v.ev(x.Body, &we).T)
+				}
+				res = "(or " + strings.Join(alts, " ") + ")"
+			}
+		}
+		return TV{T: res, Typ: tBool}
 	}
 	specPanic("unhandled spec node %T", e)
 	return TV{}
@@ -441,6 +468,37 @@ func (v *VC) evCall(x SCall, env *SpecEnv) TV {
 	case "isnil":
 		a := v.ev(x.Args[0], env)
 		return TV{T: fmt.Sprintf("(= %s %s)", a.T, zeroOfSort(v.sortTV(a))), Typ: tBool}
+	case "sel":
+		a := v.ev(x.Args[0], env)
+		i := v.ev(x.Args[1], env)
+		_, rs := arraySorts(a.Sort)
+		tv := TV{T: fmt.Sprintf("(select %s %s)", a.T, i.T), Sort: rs}
+		switch rs {
+		case "Int":
+			tv.Typ = tInt
+		case "Bool":
+			tv.Typ = tBool
+		case "Str":
+			tv.Typ = tString
+		}
+		return tv
+	case "upd":
+		a := v.ev(x.Args[0], env)
+		i := v.ev(x.Args[1], env)
+		val := v.ev(x.Args[2], env)
+		if _, isNil := x.Args[2].(SNil); isNil {
+			_, rs := arraySorts(a.Sort)
+			val.T = zeroOfSort(rs)
+		}
+		return TV{T: fmt.Sprintf("(store %s %s %s)", a.T, i.T, val.T), Sort: a.Sort}
+	case "implements":
+		a := v.ev(x.Args[0], env)
+		s, ok := x.Args[1].(SStr)
+		if !ok {
+			specPanic("implements needs an interface type name")
+		}
+		v.features["implements"] = true
+		return TV{T: fmt.Sprintf("(and (not (= %s inil)) (implements (iface-tid %s) %d))", a.T, a.T, v.typeIDByName(s.V)), Typ: tBool}
 	case "strsub":
 		a := v.ev(x.Args[0], env)
 		lo := v.ev(x.Args[1], env)
@@ -563,6 +621,29 @@ func (v *VC) evMethod(x SMethod, env *SpecEnv) TV {
 	}
 	specPanic("method not pure: %s.%s", recv.Typ.String(), x.Name)
 	return TV{}
+}
+
+// arraySorts splits "(Array K V)" into K and V.
+func arraySorts(s string) (string, string) {
+	s = strings.TrimSpace(s)
+	if !strings.HasPrefix(s, "(Array ") {
+		return "", ""
+	}
+	body := strings.TrimSuffix(strings.TrimPrefix(s, "(Array "), ")")
+	depth := 0
+	for i := 0; i < len(body); i++ {
+		switch body[i] {
+		case '(':
+			depth++
+		case ')':
+			depth--
+		case ' ':
+			if depth == 0 {
+				return body[:i], strings.TrimSpace(body[i+1:])
+			}
+		}
+	}
+	return "", ""
 }
 
 func (v *VC) typeIDByName(name string) int {
